@@ -36,6 +36,9 @@ def _make_inputs_factory(c, info, ctx):
         for p, default in params:
             if p in c.params and not isinstance(c.params[p], str):
                 env[p] = dict(c.params[p]) if isinstance(c.params[p], dict) else c.params[p]   # a literal python value
+            elif p in c.params and c.params[p].startswith("alias(") and c.params[p].endswith(")"):
+                # the caller passes an object it already holds elsewhere among the arguments: alias(<param>.<field>...)
+                env[p] = ex.eval_clause(c.params[p][len("alias("):-1], {**senv, **env}, None)
             elif p in c.params:
                 env[p] = make_value(ex, c.params[p], p, {**senv, **env})
             elif default is not None:
